@@ -47,9 +47,14 @@ class Stats:
         self.unknown = 0
         self.solver_s = 0.0
         self.max_query_s = 0.0
+        self.cvc5_checked = 0
+        self.cvc5_agree = 0
+        self.cvc5_disagree = 0
+        self.abstract_unsat = 0
 
     def add(self, o: "Stats"):
-        for k in ("paths", "forks", "forced", "sat", "unsat", "unknown"):
+        for k in ("paths", "forks", "forced", "sat", "unsat", "unknown", "cvc5_checked", "cvc5_agree", "cvc5_disagree",
+                  "abstract_unsat"):
             setattr(self, k, getattr(self, k) + getattr(o, k))
         self.solver_s += o.solver_s
         self.max_query_s = max(self.max_query_s, o.max_query_s)
@@ -64,6 +69,10 @@ class Stats:
             "solver_unknown": self.unknown,
             "solver_seconds": round(self.solver_s, 3),
             "slowest_query_seconds": round(self.max_query_s, 3),
+            "discharged_by_linear_abstraction": self.abstract_unsat,
+            "cvc5_cross_checked": self.cvc5_checked,
+            "cvc5_agree": self.cvc5_agree,
+            "cvc5_disagree": self.cvc5_disagree,
         }
 
 
@@ -122,6 +131,18 @@ class Ctx:
         st = self.stats
         st.solver_s += dt
         st.max_query_s = max(st.max_query_s, dt)
+        if expect_unsat and CVC5_EVERY[0] and r != z3.unknown:
+            _CVC5_COUNT[0] += 1
+            if _CVC5_COUNT[0] % CVC5_EVERY[0] == 0:
+                other = cvc5_check(list(self.solver.assertions()) + [_b(e) for e in extra])
+                st.cvc5_checked += 1
+                if other is None:
+                    pass  # cvc5 unknown / timeout: no information
+                elif other == ("sat" if r == z3.sat else "unsat"):
+                    st.cvc5_agree += 1
+                else:
+                    st.cvc5_disagree += 1
+                    raise Inconclusive(f"cvc5 answers {other} where z3 answers {r}")
         if r == z3.sat:
             st.sat += 1
             return "sat"
@@ -220,6 +241,42 @@ class Ctx:
         if r == "unknown":
             raise Inconclusive("feasible")
         return r == "sat"
+
+
+import os as _os
+
+CVC5_EVERY = [int(_os.environ.get("VERIF_CVC5_EVERY", "0") or 0)]  # cross-check every n-th obligation with cvc5 (0 = off)
+_CVC5_COUNT = [0]
+
+
+def cvc5_check(assertions, timeout_ms=10000):
+    """Second opinion: the same query, printed as SMT-LIB2 by z3 and decided by cvc5.  Returns 'sat', 'unsat' or None."""
+    try:
+        import cvc5
+    except ImportError:
+        return None
+    s = z3.Solver()
+    for a in assertions:
+        s.add(a)
+    text = s.to_smt2()
+    try:
+        slv = cvc5.Solver()
+        slv.setOption("tlimit-per", str(timeout_ms))
+        slv.setLogic("ALL")
+        p = cvc5.InputParser(slv)
+        p.setStringInput(cvc5.InputLanguage.SMT_LIB_2_6, text, "obligation")
+        sm = p.getSymbolManager()
+        res = None
+        while True:
+            cmd = p.nextCommand()
+            if cmd.isNull():
+                break
+            out = str(cmd.invoke(slv, sm)).strip()
+            if out in ("sat", "unsat", "unknown"):
+                res = out
+        return res if res in ("sat", "unsat") else None
+    except Exception:  # noqa  (parse error, unsupported construct): no information
+        return None
 
 
 NONLINEAR = [False]  # set as soon as a product/quotient of two non-constant reals is built
